@@ -388,6 +388,14 @@ def _run_evaluator(case, graph):
     broker = dr.Broker()
     buf = io.StringIO()
     inc = bool(case.get("incremental"))
+    # further evaluators observing the same broker (several formatters on one run is ordinary use:
+    # `insights-run -f json -f yaml ...`); each of them must account for every rule by itself
+    shadows = []
+    for k in range(int(case.get("shadows") or 0)):
+        sh = SingleEvaluator(broker, stream=io.StringIO())
+        sh.preprocess()
+        shadows.append(sh)
+    _run_evaluator.shadows = shadows
     if ev in ("single", "insights"):
         if ev == "single":
             e = SingleEvaluator(broker, stream=buf, incremental=inc)
@@ -479,6 +487,37 @@ def check_rules(case):
         doc, broker, inproc = _run_evaluator(case, graph)
         show_skips, shown = _effective_show(case)
         by_name = dict((n, i) for i, n in enumerate(names))
+
+        # --- the outcome held by the broker is the response the rule returned, whatever evaluators and
+        # formatters did with it meanwhile
+        from insights.core.plugins import Response
+        for i, m in enumerate(model):
+            if m["cls"] in ("typed", "metadata") and m.get("response") is not None:
+                if rules[i] not in broker:
+                    raise Violation("rule %d produced a response but the broker holds nothing for it" % i)
+                got = broker[rules[i]]
+                if not isinstance(got, Response) or _unjson(dict(got)) != _unjson(dict(m["response"])):
+                    raise Violation("the response held for rule %d after the evaluation is %r, the rule returned %r "
+                                    "(an evaluator or formatter altered the rule's outcome)"
+                                    % (i, _short(dict(got)) if isinstance(got, dict) else repr(got)[:200],
+                                       _short(m["response"])))
+        # --- every further evaluator on the same broker accounts for the same rules
+        for k, sh in enumerate(getattr(_run_evaluator, "shadows", [])):
+            sdoc = sh.get_response()
+            want_md = {}
+            for m in model:
+                if m["cls"] == "metadata":
+                    want_md.update(dict((kk, vv) for kk, vv in m["response"].items() if kk != "type"))
+            got_md = dict((sdoc.get("system") or {}).get("metadata") or {})
+            if _unjson(got_md) != _unjson(want_md):
+                raise Violation("evaluator #%d observing the same broker reports system metadata %r, the metadata "
+                                "rules supplied %r" % (k + 2, _short(got_md), _short(want_md)))
+            for tname, heading in HEADING.items():
+                want_c = sorted(names[i] for i, m in enumerate(model) if m["cls"] == "typed" and m["type"] == tname)
+                got_c = sorted(e.get("component") for e in (sdoc.get(heading) or []) if isinstance(e, dict))
+                if want_c != got_c:
+                    raise Violation("evaluator #%d observing the same broker reports %r under %r, expected %r"
+                                    % (k + 2, got_c, heading, want_c))
 
         # --- every heading entry belongs to a rule that the model puts under that heading, once
         seen = {}
@@ -837,6 +876,7 @@ def _rule_set(draw, tier):
         case["show_rules"] = draw(st.one_of(st.just([]), st.lists(st.sampled_from(SHOW_OPTS), min_size=1, max_size=5, unique=True)))
         if ev.endswith("-adapter"):
             case["fail_only"] = draw(st.booleans())
+    case["shadows"] = draw(st.sampled_from([0, 0, 1, 2]))
     return case
 
 
